@@ -903,3 +903,9 @@ pub mod verif_hooks_bgpin {
         }
     }
 }
+
+/// Add-only access for the external verification harness (feature
+/// `verif-hooks`, area BgpMetrics): see the module's own documentation.
+#[cfg(feature = "verif-hooks")]
+#[path = "verif_hooks_bgpmetrics.rs"]
+pub mod verif_hooks_bgpmetrics;
